@@ -61,6 +61,14 @@ type exchange struct {
 	after func() error
 	// unauth marks RPCs whose result the client cannot authenticate by design
 	unauth bool
+	// answerOK, if set, checks the honest host's recorded answer against the
+	// reference model (independently of the client): used when the client
+	// rejects an honest exchange, to tell "the client refuses a correct answer"
+	// (allowed by the statement: counted, not a harness failure) from a broken lab
+	answerOK func(rec *recorded) bool
+	// gap: the contract the exchange revises has Capacity > Filesize (it was
+	// appended to and then partly freed)
+	gap bool
 }
 
 // family is a group of RPC scenarios sharing one lab.
@@ -158,8 +166,7 @@ func (f *family) buildTable(sc *scenario, rec *recorded, ex *exchange) []mutatio
 func (f *family) honest(sc *scenario, variant string) (*recorded, *exchange) {
 	ex, err := sc.prepare(variant)
 	if err != nil {
-		harnessFail(f.r, f.name+"/"+sc.rpc+" prepare", err)
-		f.dead = true
+		f.prepareFailed(sc, err)
 		return nil, nil
 	}
 	rec := newRecorded()
@@ -170,6 +177,23 @@ func (f *family) honest(sc *scenario, variant string) (*recorded, *exchange) {
 		harnessFail(f.r, "barrier", err)
 		f.dead = true
 		return nil, nil
+	}
+	if !out.Hung && out.Panic == nil && clientRejection(out.Err) && ex.answerOK != nil && ex.answerOK(rec) {
+		// the honest host answered correctly under the reference model and the
+		// client refused it: an error is always acceptable, so this is no
+		// violation - and no harness problem either. The variant gets no
+		// field table (there is no complete recording), but the forgery /
+		// lenient / foreign rows of the scenario still run and decide.
+		f.r.Count("honest_answer_rejected_by_client:"+sc.rpc, 1)
+		fmt.Printf("NOTE C10 %s/%s: the client rejected a correct honest answer: %v\n", sc.rpc, variant, out.Err)
+		if ex.after != nil {
+			if err := ex.after(); err != nil {
+				harnessFail(f.r, "after honest exchange", err)
+				f.dead = true
+				return nil, nil
+			}
+		}
+		return nil, ex
 	}
 	if out.Hung || out.Panic != nil || out.Err != nil {
 		harnessFail(f.r, fmt.Sprintf("honest %s/%s exchange failed", sc.rpc, variant), fmt.Errorf("hung=%v panic=%v err=%v", out.Hung, out.Panic, out.Err))
@@ -192,6 +216,22 @@ func (f *family) honest(sc *scenario, variant string) (*recorded, *exchange) {
 	return rec, ex
 }
 
+// prepareFailed ends the family. If the lab's own honest helper exchange
+// (normalising a contract, forming a spare one) was refused by the CLIENT's
+// verification, that is the client rejecting correct answers again - counted,
+// the rest of this family cannot run, the other families go on; anything else
+// is a harness failure.
+func (f *family) prepareFailed(sc *scenario, err error) {
+	f.dead = true
+	if clientRejection(err) {
+		f.r.Count("honest_answer_rejected_by_client:helper-exchange", 1)
+		f.r.Count("families_stopped_by_client_rejecting_honest_helpers", 1)
+		fmt.Printf("NOTE C10 %s/%s: family stopped, the client rejects the lab's honest helper exchange: %v\n", f.name, sc.rpc, err)
+		return
+	}
+	harnessFail(f.r, f.name+"/"+sc.rpc+" prepare", err)
+}
+
 func (f *family) runCase(sc *scenario, variant string, muts []mutation, donor *recorded) {
 	if f.dead {
 		return
@@ -202,8 +242,7 @@ func (f *family) runCase(sc *scenario, variant string, muts []mutation, donor *r
 	}
 	ex, err := sc.prepare(variant)
 	if err != nil {
-		harnessFail(f.r, f.name+"/"+sc.rpc+" prepare", err)
-		f.dead = true
+		f.prepareFailed(sc, err)
 		return
 	}
 	ap := &applied{}
@@ -294,6 +333,10 @@ func (f *family) runCase(sc *scenario, variant string, muts []mutation, donor *r
 	r := f.r
 	r.Eval()
 	r.Count("exchanges:"+sc.rpc, 1)
+	if ex.gap {
+		r.Count("contracts_with_capacity_above_filesize_exercised", 1)
+		r.SetAdd("rpcs_on_capacity_above_filesize_contracts", sc.rpc)
+	}
 	if out.Hung {
 		r.Violation("hang:"+sc.rpc, "client call did not return within its context deadline plus slack", cse, map[string]any{"waited": out.Duration.String()})
 		f.dead = true
@@ -422,11 +465,20 @@ func (f *family) run() {
 				return
 			}
 			recs[i] = rec
+			if rec == nil {
+				// honest answer rejected by the client: custom rows only
+				tables[i] = append([]mutation(nil), ex.customOps...)
+				forgeable[i] = ex.forge != nil
+				continue
+			}
 			tables[i] = f.buildTable(sc, rec, ex)
 			forgeable[i] = ex.forge != nil && rec.get(rhpmitm.HostToRenter, 1) != nil
 		}
 		for i, v := range sc.variants {
-			donor := recs[(i+1)%len(recs)]
+			var donor *recorded
+			for k := 1; k <= len(recs) && donor == nil; k++ {
+				donor = recs[(i+k)%len(recs)]
+			}
 			tbl := tables[i]
 			// every variant gets the message-level and custom faults; the full
 			// field x operator table is run on the first variant in the quick
@@ -522,7 +574,7 @@ func (f *family) runLenient(sc *scenario) {
 // ---- C10 entry ----
 
 func runC10(r *mon.Run, replay string) {
-	r.Rule("fault table = RPC x host->renter message x field (reflection walk of the typed message: every byte array, currency, integer, bool, string, time, slice (first and last element), pointer, resolution type) x operator {flip low/high bit, zero, max, +1, -1, truncate, extend, duplicate, swap neighbours, swap with the same field of another recorded exchange} plus message-level faults {RPCError injection, cut before/after, half-sent message, trailing garbage, whole message of another exchange, silent host, raw sector data flip/truncate/extend/zero} plus re-signing with the real host key after altering the signed object; plus coherent alternatives built by the man-in-the-middle with core's proof builders (valid proof for another range / leaf / root set, alone and with a forged final signature); plus a LENIENT hostile host holding the real host key: for caller parameters that are well-formed and ill-formed (free index lists with duplicates in every position pattern, out of order, out of range, empty; sector-roots ranges on an empty contract, at and beyond the end, zero length, overflowing; reads with unaligned offset / unaligned end / zero length / beyond the sector; writes of unaligned or zero length; empty / repeated / unknown append lists) it executes the request exactly as received where the honest server refuses it, builds the matching proof and countersigns, and - per request - also answers with a proof built for ANOTHER index set / range than the requested one (an in-range substitute for an out-of-range index or range, one appended root more or fewer) or with one subtree hash / leaf hash / root / accepted flag too few or too many; every client call is guarded, a panic is the violation client-panic:<rpc>; plus a FOREIGN PEER: every variant of every RPC is run over a transport whose PeerKey() is not the host key of the contract, once with a peer that runs the exchange correctly (the honest server does) but countersigns every revision / contract / renewal / price table with its transport key, once with the genuine host signatures - success must still carry a host signature valid under the CONTRACT's host key - the oracle then compares the result with a reference model of the CALLER's parameters (set semantics for free, the renter-known roots for sector roots, the stored bytes for read), independent of the client's own arithmetic; the table is enumerated completely (exhaustive over the table), thorough adds PRNG double mutations; a case is non-trivial when the fault changed the bytes the renter received; oracle only when the client call returned success")
+	r.Rule("fault table = RPC x host->renter message x field (reflection walk of the typed message: every byte array, currency, integer, bool, string, time, slice (first and last element), pointer, resolution type) x operator {flip low/high bit, zero, max, +1, -1, truncate, extend, duplicate, swap neighbours, swap with the same field of another recorded exchange} plus message-level faults {RPCError injection, cut before/after, half-sent message, trailing garbage, whole message of another exchange, silent host, raw sector data flip/truncate/extend/zero} plus re-signing with the real host key after altering the signed object; plus coherent alternatives built by the man-in-the-middle with core's proof builders (valid proof for another range / leaf / root set, alone and with a forged final signature); plus a LENIENT hostile host holding the real host key: for caller parameters that are well-formed and ill-formed (free index lists with duplicates in every position pattern, out of order, out of range, empty; sector-roots ranges on an empty contract, at and beyond the end, zero length, overflowing; reads with unaligned offset / unaligned end / zero length / beyond the sector; writes of unaligned or zero length; empty / repeated / unknown append lists) it executes the request exactly as received where the honest server refuses it, builds the matching proof and countersigns, and - per request - also answers with a proof built for ANOTHER index set / range than the requested one (an in-range substitute for an out-of-range index or range, one appended root more or fewer) or with one subtree hash / leaf hash / root / accepted flag too few or too many; every client call is guarded, a panic is the violation client-panic:<rpc>; plus HISTORIES append -> free (some) -> append / free / roots / fund / replenish / renew / refresh, so that contracts with Capacity > Filesize go through every revision-returning RPC, and forgers that recompute the append answer consistently for a WRONG old leaf count (capacity-shaped tree, file size +-1, +2, double, half, zero: subtree roots, new root and final signature) and the free answer over the halved view of the tree (same root, ceil(n/2) leaves); when the client rejects an honest, model-correct answer the variant is counted (honest_answer_rejected_by_client:<rpc>), gets no field table, and the forgery rows still decide; plus a FOREIGN PEER: every variant of every RPC is run over a transport whose PeerKey() is not the host key of the contract, once with a peer that runs the exchange correctly (the honest server does) but countersigns every revision / contract / renewal / price table with its transport key, once with the genuine host signatures - success must still carry a host signature valid under the CONTRACT's host key - the oracle then compares the result with a reference model of the CALLER's parameters (set semantics for free, the renter-known roots for sector roots, the stored bytes for read), independent of the client's own arithmetic; the table is enumerated completely (exhaustive over the table), thorough adds PRNG double mutations; a case is non-trivial when the fault changed the bytes the renter received; oracle only when the client call returned success")
 	r.Assume("core (rhp/v4 merkle, sighash, Revise* functions) is the trusted base for computing expected roots and successor revisions")
 	r.Assume("the in-repo server, EphemeralContractor and EphemeralSectorStore are the honest peer behind the man-in-the-middle; transports' own framing (siamux/quic) is not mutated")
 	r.Extra("exhaustive", true)
@@ -599,14 +651,30 @@ func runC10(r *mon.Run, replay string) {
 		r.Floor("returned_at_context_deadline_silent_host", 5)
 		r.Floor("foreign_peer:client_success", 20)
 		r.Floor("foreign_peer:client_error", 20)
+		stopped := r.Counter("families_stopped_by_client_rejecting_honest_helpers") > 0
 		for _, rpc := range []string{"fund", "replenish-accounts", "replenish-pools", "append", "free", "roots", "form", "renew", "refresh-full", "refresh-partial", "latest-revision"} {
-			r.Floor("foreign_peer_cases:"+rpc, 4)
+			if !stopped {
+				r.Floor("foreign_peer_cases:"+rpc, 4)
+			}
 		}
-		r.Floor("lenient_host_cases:free", 100)
-		r.Floor("lenient_host_cases:roots", 60)
-		r.Floor("lenient_host:answers_built_for_another_request", 150)
+		// a scenario whose honest exchange the client refused (a correct answer
+		// rejected: allowed, counted) has no field table; its per-RPC floors
+		// would then be missed for a reason that is no coverage problem
+		floorUnlessRejected := func(rpc, counter string, min int64) {
+			if r.Counter("honest_answer_rejected_by_client:"+rpc) == 0 && r.Counter("families_stopped_by_client_rejecting_honest_helpers") == 0 {
+				r.Floor(counter, min)
+			}
+		}
+		floorUnlessRejected("append", "coherent_alternative_responses:append", 40)
+		floorUnlessRejected("free", "coherent_alternative_responses:free", 30)
+		floorUnlessRejected("free", "lenient_host_cases:free", 100)
+		floorUnlessRejected("roots", "lenient_host_cases:roots", 60)
+		r.Floor("contracts_with_capacity_above_filesize_exercised", 200)
+		if !stopped {
+			r.Floor("lenient_host:answers_built_for_another_request", 150)
+		}
 		r.Floor("lenient_host_cases:read", 8)
-		r.Floor("lenient_host_cases:append", 35)
+		floorUnlessRejected("append", "lenient_host_cases:append", 35)
 		r.Floor("lenient_host_cases:write", 4)
 		r.Floor("lenient_host:client_success", 10)
 		r.Floor("lenient_host:answered_where_honest_host_differs", 3)
@@ -1045,9 +1113,23 @@ func buildRootsFamily(f *family) error {
 	if err := c0.resync(); err != nil {
 		return err
 	}
-	sc := &scenario{rpc: "roots", nHost: 1, variants: []string{"1:0,1", "1:1,3", "2:0,2", "1:0,5", "1:4,1", "2:2,1"},
-		lenient: []string{"1:1,2", "0:0,1", "0:0,3", "0:1,1", "0:0,0", "1:5,1", "1:3,5", "1:0,6", "1:0,0", "1:18446744073709551615,2", "1:4,18446744073709551615", "2:3,1"}}
-	for _, v := range []string{"1:1,2", "1:0,5", "0:0,1", "0:0,3", "1:5,1", "1:3,5", "1:0,6", "1:18446744073709551615,2"} {
+	// a contract with the history append 5 -> free 2: three sectors, capacity five
+	cs3, err := l.FormConfirmed(1, types.Siacoins(500), types.Siacoins(500), 400)
+	if err != nil {
+		return err
+	}
+	c3 := &contractState{lab: l, cur: cs3[0]}
+	if err := normalize(l, c3, base); err != nil {
+		return err
+	}
+	if err := honestFree(l, c3, []uint64{1, 3}); err != nil {
+		return err
+	}
+	sc := &scenario{rpc: "roots", nHost: 1, variants: []string{"1:0,1", "1:1,3", "2:0,2", "1:0,5", "1:4,1", "2:2,1", "3:0,3", "3:1,2", "3:2,1"},
+		lenient: []string{"1:1,2", "0:0,1", "0:0,3", "0:1,1", "0:0,0", "1:5,1", "1:3,5", "1:0,6", "1:0,0", "1:18446744073709551615,2", "1:4,18446744073709551615", "2:3,1",
+			// inside the CAPACITY of the history contract, outside its file
+			"3:0,3", "3:3,1", "3:0,5", "3:2,3", "3:4,1"}}
+	for _, v := range []string{"1:1,2", "1:0,5", "0:0,1", "0:0,3", "1:5,1", "1:3,5", "1:0,6", "1:18446744073709551615,2", "3:1,2", "3:3,1", "3:0,5"} {
 		for _, md := range []string{"sub-first", "sub-last", "proof-drop", "proof-extra", "proof-none", "roots-drop", "roots-extra", "roots-none"} {
 			sc.lenient = append(sc.lenient, v+"|"+md)
 		}
@@ -1059,6 +1141,8 @@ func buildRootsFamily(f *family) error {
 			c = c2
 		case '0':
 			c = c0
+		case '3':
+			c = c3
 		}
 		ol := parseInts(variant[2:])
 		off, n := ol[0], ol[1]
@@ -1185,6 +1269,18 @@ func buildRootsFamily(f *family) error {
 				}
 				return true
 			}),
+			gap: prev.Revision.Capacity > prev.Revision.Filesize,
+			answerOK: func(rec *recorded) bool {
+				h0 := rec.get(rhpmitm.HostToRenter, 0)
+				if h0 == nil || h0.Err != nil || !inRange {
+					return false
+				}
+				resp := h0.Obj.(*rhp4.RPCSectorRootsResponse)
+				rev, _, err := rhp4.ReviseForSectorRoots(prev.Revision, l.Prices, n)
+				return err == nil && slices.Equal(resp.Roots, truth[off:off+n]) &&
+					slices.Equal(resp.Proof, rhp4.BuildSectorRootsProof(truth, off, off+n)) &&
+					l.HostKey.PublicKey().VerifyHash(l.HostNode.CM.TipState().ContractSigHash(rev), resp.HostSignature)
+			},
 			call: func(ctx context.Context) (any, error) {
 				return rhp.RPCSectorRoots(ctx, l.T, l.HostNode.CM.TipState(), l.Prices, l.Signer, prev, off, n)
 			},
@@ -1248,8 +1344,43 @@ func buildAppendFreeFamily(f *family) error {
 		return err
 	}
 	base2 := append([]types.Hash256(nil), c2.roots...)
+	// a contract with the history append 2 -> free index 1: one sector left,
+	// capacity two sectors. Sector roots are inner-node hashes, so the leaf
+	// count fixes the tree shape: every later proof has to be made for the
+	// FILESIZE-shaped tree, not the capacity-shaped one
+	cs3, err := l.FormConfirmed(1, types.Siacoins(500), types.Siacoins(500), 400)
+	if err != nil {
+		return err
+	}
+	c3 := &contractState{lab: l, cur: cs3[0]}
+	base3 := []types.Hash256{base[0]}
+	if err := l.Append(&c3.cur, []types.Hash256{base[0], base[1]}); err != nil {
+		return err
+	}
+	if err := l.Barrier(); err != nil {
+		return err
+	}
+	if err := c3.resync(); err != nil {
+		return err
+	}
+	if err := honestFree(l, c3, []uint64{1}); err != nil {
+		return err
+	}
+	pick := func(variant string) (*contractState, []types.Hash256) {
+		switch variant[0] {
+		case '2':
+			return c2, base2
+		case '3': // the second contract cut down to two sectors
+			return c2, base2[:2]
+		case '5': // append 2, free 1: Capacity > Filesize
+			return c3, base3
+		}
+		return c1, base
+	}
 	missing := types.Hash256{0xde, 0xad}
 	appendSets := map[string][]types.Hash256{
+		"5:two":          {base[1], base[2]},
+		"5:one":          {base[3]},
 		"1:one":          {base[0]},
 		"1:three-1-miss": {base[1], missing, base[2]},
 		"2:two":          {base[3], base[4]},
@@ -1257,7 +1388,7 @@ func buildAppendFreeFamily(f *family) error {
 		"1:same-twice":   {base[2], base[2]},
 		"1:only-missing": {missing},
 	}
-	app := &scenario{rpc: "append", nHost: 2, variants: []string{"1:one", "1:three-1-miss", "2:two"},
+	app := &scenario{rpc: "append", nHost: 2, variants: []string{"1:one", "1:three-1-miss", "2:two", "5:two", "5:one"},
 		lenient: []string{"1:one", "1:empty", "1:same-twice", "1:only-missing"}}
 	for _, v := range []string{"1:one", "1:empty", "1:three-1-miss", "1:only-missing", "2:two"} {
 		for _, md := range []string{"other-set", "fewer", "accepted-extra", "accepted-short", "accepted-none", "subtree-drop", "subtree-extra", "subtree-none"} {
@@ -1265,10 +1396,7 @@ func buildAppendFreeFamily(f *family) error {
 		}
 	}
 	app.prepare = func(variant string) (*exchange, error) {
-		c, b := c1, base
-		if variant[0] == '2' {
-			c, b = c2, base2
-		}
+		c, b := pick(variant)
 		if err := normalize(l, c, b); err != nil {
 			return nil, err
 		}
@@ -1432,8 +1560,58 @@ func buildAppendFreeFamily(f *family) error {
 			return true
 		}
 		altAppendOps := altOps(0, "alt-append:", []string{"prefix", "none", "other", "extra", "reordered", "declined-last"})
+		// the answer recomputed CONSISTENTLY for a wrong old leaf count: the
+		// capacity-shaped tree, file size +-1, double, half, zero
+		nLeaves, capLeaves := uint64(len(prevRoots)), prev.Revision.Capacity/rhp4.SectorSize
+		var counts []string
+		for _, k := range []uint64{capLeaves, nLeaves - 1, nLeaves + 1, 2 * nLeaves, nLeaves / 2, 0, nLeaves + 2, capLeaves + 1} {
+			if k != nLeaves && k < 1<<40 {
+				counts = append(counts, fmt.Sprint(k))
+			}
+		}
+		altAppendOps = append(altAppendOps, altOps(0, "alt-append-count:", counts)...)
+		altAppendCount := func(m *rhpmitm.Msg, mu mutation, _ *recorded) bool {
+			arg, ok := strings.CutPrefix(mu.Op, "alt-append-count:")
+			resp, isResp := m.Obj.(*rhp4.RPCAppendSectorsResponse)
+			if !ok || m.Err != nil || !isResp {
+				return false
+			}
+			var k uint64
+			fmt.Sscanf(arg, "%d", &k)
+			var appd []types.Hash256
+			for i, a := range resp.Accepted {
+				if a && i < len(req) {
+					appd = append(appd, req[i])
+				}
+			}
+			sub, root, ok := rhpmitm.AppendAnswerForLeafCount(prevRoots, k, appd)
+			if !ok {
+				return false
+			}
+			resp.SubtreeRoots, resp.NewMerkleRoot = sub, root
+			return true
+		}
+		ex.gap = prev.Revision.Capacity > prev.Revision.Filesize
+		ex.answerOK = func(rec *recorded) bool {
+			h0 := rec.get(rhpmitm.HostToRenter, 0)
+			if h0 == nil || h0.Err != nil {
+				return false
+			}
+			resp := h0.Obj.(*rhp4.RPCAppendSectorsResponse)
+			if len(resp.Accepted) != len(req) {
+				return false
+			}
+			model := append([]types.Hash256(nil), prevRoots...)
+			for i, a := range resp.Accepted {
+				if a {
+					model = append(model, req[i])
+				}
+			}
+			sub, root := rhp4.BuildAppendProof(prevRoots, model[len(prevRoots):])
+			return resp.NewMerkleRoot == root && slices.Equal(resp.SubtreeRoots, sub) && root == rhp4.MetaRoot(model)
+		}
 		defer func() {
-			ex.custom = chainCustom(ex.custom, altAppend, lenientAppend)
+			ex.custom = chainCustom(ex.custom, altAppend, altAppendCount, lenientAppend)
 			ex.customOps = append(ex.customOps, altAppendOps...)
 		}()
 		ex.custom, ex.customOps = resignCustom(l, "append", 1, func(alt string) (types.V2FileContract, bool) {
@@ -1474,6 +1652,8 @@ func buildAppendFreeFamily(f *family) error {
 		"1:oob-mixed":  {1, 9},
 		"1:empty":      {},
 		"2:nonadj":     {0, 2, 0},
+		"5:only":       {0},
+		"5:cap-index":  {1},
 		"3:oob5":       {5},
 		"3:oob2":       {2},
 		"3:oob-mixed":  {0, 5},
@@ -1495,17 +1675,15 @@ func buildAppendFreeFamily(f *family) error {
 			freeLenientModes = append(freeLenientModes, v+"|"+md)
 		}
 	}
-	fr := &scenario{rpc: "free", nHost: 2, variants: []string{"1:first", "1:two", "1:dup", "1:all", "2:lastone"},
+	fr := &scenario{rpc: "free", nHost: 2, variants: []string{"1:first", "1:two", "1:dup", "1:all", "2:lastone", "5:only"},
 		lenient: []string{"1:two", "1:nonadj", "1:nonadj4", "1:nonadj-asc", "1:alleq", "1:adjdup", "1:duplast", "1:dupfirst", "1:pairs", "1:unsorted", "1:oob", "1:oob-eq", "1:oob-mixed", "1:empty", "2:nonadj"}}
 	fr.lenient = append(fr.lenient, freeLenientModes...)
+	// index 1 is inside the CAPACITY of the history contract, not inside its file
+	fr.lenient = append(fr.lenient, "5:only", "5:cap-index", "5:cap-index|sub-last", "5:cap-index|sub-mod")
+	app.lenient = append(app.lenient, "5:two", "5:one", "5:two|other-set", "5:two|subtree-extra", "5:two|subtree-none")
 	fr.prepare = func(variant string) (*exchange, error) {
 		c, b := c1, base
-		switch variant[0] {
-		case '2':
-			c, b = c2, base2
-		case '3': // the second contract cut down to two sectors
-			c, b = c2, base2[:2]
-		}
+		c, b = pick(variant)
 		if err := normalize(l, c, b); err != nil {
 			return nil, err
 		}
@@ -1687,8 +1865,56 @@ func buildAppendFreeFamily(f *family) error {
 			return true
 		}
 		altFreeOps := altOps(0, "alt-free:", []string{"fewer", "more", "others", "nothing"})
+		// the answer built consistently over a tree with a WRONG leaf count: the
+		// halved view (adjacent pairs merged) has the same root with
+		// ceil(n/2) leaves
+		altFreeOps = append(altFreeOps, altOps(0, "alt-free-count:", []string{"half", "half-clamped"})...)
+		altFreeCount := func(m *rhpmitm.Msg, mu mutation, _ *recorded) bool {
+			arg, ok := strings.CutPrefix(mu.Op, "alt-free-count:")
+			resp, isResp := m.Obj.(*rhp4.RPCFreeSectorsResponse)
+			if !ok || m.Err != nil || !isResp || len(prevRoots) < 2 {
+				return false
+			}
+			view := rhpmitm.HalvedView(prevRoots)
+			norm := slices.Clone(idx)
+			slices.SortFunc(norm, func(a, b uint64) int { return int(int64(b) - int64(a)) })
+			norm = slices.Compact(norm)
+			var exec []uint64
+			for _, i := range norm {
+				switch {
+				case i < uint64(len(view)):
+					exec = append(exec, i)
+				case arg == "half-clamped":
+					exec = append(exec, uint64(len(view)-1))
+				}
+			}
+			exec = slices.Compact(exec)
+			if len(exec) == 0 {
+				return false
+			}
+			var th, lh []types.Hash256
+			if p := mon.Guard(func() { th, lh = rhp4.BuildFreeSectorsProof(view, exec) }); p != nil {
+				return false
+			}
+			resp.OldSubtreeHashes, resp.OldLeafHashes = th, lh
+			resp.NewMerkleRoot = rhp4.MetaRoot(applyFree(view, exec))
+			return true
+		}
+		ex.gap = prev.Revision.Capacity > prev.Revision.Filesize
+		ex.answerOK = func(rec *recorded) bool {
+			h0 := rec.get(rhpmitm.HostToRenter, 0)
+			if h0 == nil || h0.Err != nil || !inRange {
+				return false
+			}
+			resp := h0.Obj.(*rhp4.RPCFreeSectorsResponse)
+			norm := slices.Clone(idx)
+			slices.SortFunc(norm, func(a, b uint64) int { return int(int64(b) - int64(a)) })
+			norm = slices.Compact(norm)
+			return resp.NewMerkleRoot == rhp4.MetaRoot(model) &&
+				rhp4.VerifyFreeSectorsProof(resp.OldSubtreeHashes, resp.OldLeafHashes, norm, uint64(len(prevRoots)), rhp4.MetaRoot(prevRoots), resp.NewMerkleRoot)
+		}
 		defer func() {
-			ex.custom = chainCustom(ex.custom, altFree, lenientFree)
+			ex.custom = chainCustom(ex.custom, altFree, altFreeCount, lenientFree)
 			ex.customOps = append(ex.customOps, altFreeOps...)
 		}()
 		ex.custom, ex.customOps = resignCustom(l, "free", 1, func(alt string) (types.V2FileContract, bool) {
@@ -1800,7 +2026,25 @@ func buildAccountFamily(f *family) error {
 		return err
 	}
 	f.lab = l
+	// history: append 3 sectors, free one - Capacity > Filesize while the
+	// account RPCs revise the contract
+	if err := l.FundAccount(&c.cur, l.Account(), types.Siacoins(1)); err != nil {
+		return err
+	}
+	hist, err := storeBaseRoots(l, f.rng, 3)
+	if err != nil {
+		return err
+	}
+	if err := l.Append(&c.cur, hist); err != nil {
+		return err
+	}
+	if err := l.Barrier(); err != nil {
+		return err
+	}
 	if err := c.resync(); err != nil {
+		return err
+	}
+	if err := honestFree(l, c, []uint64{1}); err != nil {
 		return err
 	}
 	newAccounts := func(n int) []rhp4.Account {
@@ -1842,6 +2086,7 @@ func buildAccountFamily(f *family) error {
 			},
 			after: c.resync,
 		}
+		ex.gap = prev.Revision.Capacity > prev.Revision.Filesize
 		ex.custom, ex.customOps = resignCustom(l, "fund", 0, func(string) (types.V2FileContract, bool) {
 			rev, _, err := rhp4.ReviseForFundAccounts(prev.Revision, total)
 			return rev, err == nil
@@ -1936,6 +2181,7 @@ func buildAccountFamily(f *family) error {
 			rev, _, err := rhp4.ReviseForReplenish(prev.Revision, total)
 			return rev, err == nil
 		}
+		ex.gap = prev.Revision.Capacity > prev.Revision.Filesize
 		ex.custom, ex.customOps = resignCustom(l, "replenish-accounts", 1, func(string) (types.V2FileContract, bool) {
 			fresh := 0
 			for _, a := range accs {
@@ -2003,6 +2249,7 @@ func buildAccountFamily(f *family) error {
 			rev, _, err := rhp4.ReviseForReplenish(prev.Revision, total)
 			return rev, err == nil
 		}
+		ex.gap = prev.Revision.Capacity > prev.Revision.Filesize
 		ex.custom, ex.customOps = resignCustom(l, "replenish-pools", 1, func(string) (types.V2FileContract, bool) {
 			fresh := 0
 			for _, a := range pools {
@@ -2168,9 +2415,19 @@ func (p *sparePool) take() (rhp.ContractRevision, error) {
 			return rhp.ContractRevision{}, err
 		}
 		for i := range cs {
-			if err := p.l.Append(&cs[i], []types.Hash256{p.root}); err != nil {
+			// history: append 2 sectors, free the second - the contract to renew /
+			// refresh has Capacity > Filesize
+			if err := p.l.Append(&cs[i], []types.Hash256{p.root, p.root}); err != nil {
 				return rhp.ContractRevision{}, err
 			}
+			if err := p.l.Barrier(); err != nil {
+				return rhp.ContractRevision{}, err
+			}
+			st := &contractState{lab: p.l, cur: cs[i]}
+			if err := honestFree(p.l, st, []uint64{1}); err != nil {
+				return rhp.ContractRevision{}, err
+			}
+			cs[i] = st.cur
 		}
 		if err := p.l.Barrier(); err != nil {
 			return rhp.ContractRevision{}, err
@@ -2310,6 +2567,7 @@ func buildRenewalFamily(f *family, rpc string) error {
 		}
 		l.Contractor.ResetEvents()
 		local := kit.local(l, existing, k)
+		gap := existing.Revision.Capacity > existing.Revision.Filesize
 		ex := &exchange{
 			call: func(ctx context.Context) (any, error) {
 				c, _, err := kit.call(ctx, l, existing, k)
@@ -2328,6 +2586,7 @@ func buildRenewalFamily(f *family, rpc string) error {
 				}
 				return fs
 			},
+			gap: gap,
 			after: func() error {
 				if !renewed(l, existing.ID) {
 					pool.giveBack(existing)
